@@ -293,8 +293,8 @@ struct StrSeq : HarnessBase {
 	StrSeq(int m) : maxlen(m) {}
 	const char *prop() const { static std::string p = crash_prop(); return p.c_str(); }
 	Str &s(int a) { return *reinterpret_cast<Str *>(store[a]); }
-	void reset() { world_reset(); for(int a = 0; a < 2; a++) { new(store[a]) Str(TrackAlloc{}); alive[a] = true; ref[a].clear(); } }
-	enum { APPEND_CHAR, APPEND_OTHER, APPEND_SELF, PUSH, RESIZE, ASSIGN, SWAP, PLUS };
+	void reset() { world_reset(); for(int a = 0; a < 2; a++) { memset(store[a], 0xA5, sizeof(Str)); new(store[a]) Str(TrackAlloc{}); alive[a] = true; ref[a].clear(); } }
+	enum { APPEND_CHAR, APPEND_OTHER, APPEND_SELF, PUSH, RESIZE, ASSIGN, SWAP, PLUS, MOVE_ASSIGN, MOVE_CONS };
 	static uint32_t mk(uint32_t k, uint32_t a, uint32_t v = 0) { return k | a << 8 | v << 12; }
 	void ops(std::vector<uint32_t> &out) {
 		for(uint32_t a = 0; a < 2; a++) {
@@ -302,11 +302,11 @@ struct StrSeq : HarnessBase {
 			if((int)(ref[a].size() + ref[1 - a].size()) <= maxlen) { out.push_back(mk(APPEND_OTHER, a)); out.push_back(mk(PLUS, a)); }
 			if((int)(2 * ref[a].size()) <= maxlen) out.push_back(mk(APPEND_SELF, a));
 			for(uint32_t n : {0u, 1u, 3u}) if(n != ref[a].size()) out.push_back(mk(RESIZE, a, n));
-			out.push_back(mk(ASSIGN, a));
+			out.push_back(mk(ASSIGN, a)); out.push_back(mk(MOVE_ASSIGN, a)); out.push_back(mk(MOVE_CONS, a));
 		}
 		out.push_back(mk(SWAP, 0));
 	}
-	std::string show_class(uint32_t op) { static const char *nm[] = {"+=char", "+=view(other)", "+=view(self)", "push_back", "resize", "assign", "swap", "a=a+other"}; return std::string("string.") + nm[op & 0xff]; }
+	std::string show_class(uint32_t op) { static const char *nm[] = {"+=char", "+=view(other)", "+=view(self)", "push_back", "resize", "assign", "swap", "a=a+other", "a=move(other)", "construct-from-move(other)"}; return std::string("string.") + nm[op & 0xff]; }
 	std::string show(uint32_t op) { return show_class(op) + "(slot" + std::to_string((op >> 8) & 0xf) + "," + std::to_string(op >> 12) + ")"; }
 	void apply(uint32_t op) {
 		uint32_t k = op & 0xff, a = (op >> 8) & 0xf, b = 1 - a, v = op >> 12;
@@ -321,7 +321,18 @@ struct StrSeq : HarnessBase {
 		case ASSIGN: s(a) = s(b); ref[a] = ref[b]; break;
 		case SWAP: { using std::swap; swap(s(0), s(1)); std::swap(ref[0], ref[1]); break; }
 		case PLUS: s(a) = s(a) + View(s(b)); ref[a] = ref[a] + ref[b]; break;
+		case MOVE_ASSIGN: s(a) = std::move(s(b)); ref[a] = ref[b]; moved_from(b); break;
+		case MOVE_CONS: s(a).~Str(); memset(store[a], 0xA5, sizeof(Str)); new(store[a]) Str(std::move(s(b))); ref[a] = ref[b]; moved_from(b); break;
 		}
+	}
+	// The source of a move holds SOME string afterwards (today: its old value, there is no move constructor): whatever it
+	// reports must be a well-formed owned string, which then becomes its reference value (check_state compares against it).
+	void moved_from(int b) {
+		Str &x = s(b);
+		if(!x.data()) { EXPECT(x.size() == 0, "C15", "string:moved-from:size-without-buffer", "a moved-from string reports size() = " + std::to_string(x.size()) + " but owns no buffer"); ref[b].clear(); return; }
+		size_t bs = heap().size_of((void *)x.data());
+		EXPECT(bs != (size_t)-1 && bs >= x.size() + 1, "C15", "string:moved-from:buffer", "a moved-from string reports a size its buffer cannot hold");
+		ref[b] = std::string(x.data(), x.size());
 	}
 	void check_state() { for(int a = 0; a < 2; a++) check_owned(s(a), ref[a], "sequence"); if(res) res->outcomes.insert(std::to_string(ref[0].size()) + "/" + std::to_string(ref[1].size())); }
 	void final_check() { for(int a = 0; a < 2; a++) if(alive[a]) { s(a).~Str(); alive[a] = false; } raise_pending(); world_check_empty("string"); }
